@@ -138,22 +138,37 @@ theorem noDial_step (hb : cfg.bgLocked = true) (s : St) (a : Act) (s' : St) (hi 
   | writeEnd t => obtain ⟨_, _, _, rfl⟩ := step_writeEnd h; exact hi t' (mv _ _ _ (by simp) hd)
   | autoFlush t k => obtain ⟨_, _, _, _, _, rfl⟩ := step_autoFlush h; exact hi t' hd
   | autoFlushErr t k => obtain ⟨_, _, _, _, _, rfl⟩ := step_autoFlushErr h; exact hi t' (mv _ _ _ (by simp) hd)
-  | flushOk t => obtain ⟨_, _, _, _, _, _, rfl⟩ := step_flushOk h; have h2 := fin _ _ _ _ hd; exact hi t' h2
-  | flushErr t k => obtain ⟨_, _, _, _, _, _, rfl⟩ := step_flushErr h; have h2 := fin _ _ _ _ hd; exact hi t' h2
+  | flushOk t =>
+    obtain ⟨_, _, _, _, _, _, rfl⟩ := step_flushOk h
+    have hd' : ((s.push _ _).finish t _ true).pc t' = .bgDial := hd
+    have h2 := fin _ _ _ _ hd'; exact hi t' h2
+  | flushErr t k =>
+    obtain ⟨_, _, _, _, _, _, rfl⟩ := step_flushErr h
+    have hd' : (((s.push _ k).setErr _).finish t _ false).pc t' = .bgDial := hd
+    have h2 := fin _ _ _ _ hd'; exact hi t' h2
   | close t =>
     obtain ⟨_, _, rfl⟩ := step_close h
     exact hi t' (mv _ _ _ (by split <;> simp) hd)
-  | flushAfterFail => obtain ⟨_, _, rfl⟩ := step_flushAfterFail h; exact hi t' (mv _ _ _ (by simp) hd)
-  | unlock t => obtain ⟨_, _, _, rfl⟩ := step_unlock h; exact hi t' (mv _ _ _ (by simp) hd)
+  | flushAfterFail =>
+    obtain ⟨_, _, rfl⟩ := step_flushAfterFail h
+    have hd' : (s.setPc 0 Pc.idle).pc t' = .bgDial := hd
+    exact hi t' (mv _ _ _ (by simp) hd')
+  | unlock t => obtain ⟨_, _, _, _, rfl⟩ := step_unlock h; exact hi t' (mv _ _ _ (by simp) hd)
   | enqueue t sid => obtain ⟨_, rfl⟩ := step_enqueue h; exact hi t' hd
   | enqueueFail t sid => obtain ⟨_, rfl⟩ := step_enqueueFail h; exact hi t' hd
-  | dequeue => obtain ⟨_, _, _, _, rfl⟩ := step_dequeue h; exact hi t' (mv _ _ _ (by simp) hd)
+  | dequeue => obtain ⟨_, _, _, _, _, _, rfl⟩ := step_dequeue h; exact hi t' (mv _ _ _ (by simp) hd)
   | bgConnectOk => obtain ⟨_, rfl⟩ := step_bgConnectOk h; exact hi t' hd
   | bgConnectFail => obtain ⟨_, rfl⟩ := step_bgConnectFail h; exact hi t' hd
   | bgCheck => obtain ⟨⟨hf, _, _⟩, _⟩ := step_bgCheck h; rw [hb] at hf; cases hf
   | bgDialOk => obtain ⟨hp, _⟩ := step_bgDialOk h; exact hi 0 hp
   | bgDialFail => obtain ⟨hp, _⟩ := step_bgDialFail h; exact hi 0 hp
   | peerClose c n => obtain ⟨_, rfl⟩ := step_peerClose h; exact hi t' hd
+  | setCapacity c => rw [step_setCapacity h] at hd; exact hi t' hd
+  | setTimeout n => rw [step_setTimeout h] at hd; exact hi t' hd
+  | tick d => rw [step_tick h] at hd; exact hi t' hd
+  | reconfClose t => obtain ⟨_, rfl⟩ := step_reconfClose h; exact hi t' (mv _ _ _ (by simp) hd)
+  | reconfDialOk t => obtain ⟨_, rfl⟩ := step_reconfDialOk h; exact hi t' (mv _ _ _ (by simp) hd)
+  | reconfDialFail t => obtain ⟨_, rfl⟩ := step_reconfDialFail h; exact hi t' (mv _ _ _ (by simp) hd)
 
 /-- the conclusion of the no-loss theorems: every accepted send is queued, in progress on
     process(), or whole on a connection the peer did not cut -/
@@ -177,11 +192,12 @@ theorem no_loss_benign (hl : cfg.sendLocked = true) (acts : List Act) (s : St)
     (hb : ∀ a ∈ acts, a.benign = true) (h : run cfg bytesOf acts init = some s) : NothingLost bytesOf s := by
   have := run_inv cfg bytesOf (I := fun s => Core cfg bytesOf s ∧ HealthyInv bytesOf s) (fun a => a.benign = true)
     (fun s a s' hb hi h => ⟨core_step cfg bytesOf hl s a s' hi.1 h,
-      healthyInv_step cfg bytesOf s s' a hb hi.1.mutex hi.1.bytes hi.2 h⟩)
+      healthyInv_step cfg bytesOf s s' a (Or.inl hb) hi.1.mutex hi.1.bytes hi.2 h⟩)
     acts init s hb ⟨core_init cfg bytesOf, healthyInv_init bytesOf⟩ h
   exact nothingLost_of_healthy bytesOf this.2
 
-theorem no_loss_locked (hl : cfg.sendLocked = true) (hbg : cfg.bgLocked = true) (acts : List Act) (s : St)
+theorem no_loss_locked (hl : cfg.sendLocked = true) (hbg : cfg.bgLocked = true) (hac : cfg.acLocked = true)
+    (hpl : cfg.procLocked = true) (acts : List Act) (s : St)
     (hh : Healthy acts) (h : run cfg bytesOf acts init = some s) : NothingLost bytesOf s := by
   have := run_inv cfg bytesOf
     (I := fun s => (Core cfg bytesOf s ∧ HealthyInv bytesOf s) ∧ NoDial s) (fun a => a.isFault = false)
@@ -189,7 +205,10 @@ theorem no_loss_locked (hl : cfg.sendLocked = true) (hbg : cfg.bgLocked = true) 
       refine ⟨⟨core_step cfg bytesOf hl s a s' hi.1.1 h, ?_⟩, noDial_step cfg bytesOf hbg s a s' hi.2 h⟩
       by_cases e : a = .bgDialOk
       · subst e; obtain ⟨hp, _⟩ := step_bgDialOk h; exact absurd hp (hi.2 0)
-      · exact healthyInv_step cfg bytesOf s s' a (by simp [Act.benign, hf, e]) hi.1.1.mutex hi.1.1.bytes hi.1.2 h)
+      · refine healthyInv_step cfg bytesOf s s' a ?_ hi.1.1.mutex hi.1.1.bytes hi.1.2 h
+        cases hr : a.isReconf with
+        | true => exact Or.inr ⟨hf, rfl, hac, hpl⟩
+        | false => exact Or.inl (by simp [Act.benign, hf, e, hr]))
     acts init s hh ⟨⟨core_init cfg bytesOf, healthyInv_init bytesOf⟩, fun t => by simp [init, St.pc, AMap.get]⟩ h
   exact nothingLost_of_healthy bytesOf this.1.2
 
